@@ -107,6 +107,9 @@ func c01R1(c *Ctx, rule string) {
 				return
 			}
 			cd := c.P.CondOf(ifi.Cond)
+			if cd.IsRel && cd.EdgeOrd(true) == engine.LT|engine.EQ {
+				cd = cd.Flipped() // votesNeeded <= grantedVotes
+			}
 			if cd.IsRel && cd.EdgeOrd(true) == engine.GT|engine.EQ {
 				counter, needDesc = cd.XV, cd.Y
 			}
